@@ -211,7 +211,9 @@ def run(ctx):
                  "counter its exit test depends on nor shrinks a collection it depends on (progress found elsewhere in the loop: %s): the request never returns"
                  % (lines[:8], desc or "none"),
                  sample={"rule": "LOOP-PROGRESS", "fn": fn.name[-60:], "progress": desc})
-    R.floor("hand_written_loops_in_request_reachable_code", n_hand, 4)
+    # 6 on the pinned tree; rewriting a `while` as an iterator chain (which LOOP then bounds) lowers the count, so the floor only
+    # guards against the loop detector finding nothing at all
+    R.floor("hand_written_loops_in_request_reachable_code", n_hand, 1)
     # a deadlock is a request that never returns and wedges the write path: the lock discipline (no re-entry, acyclic order,
     # no guard across await) is part of "no request can hang"
     import c11
